@@ -26,12 +26,6 @@ inductive XTok where
   | digit (c : Char)
   deriving DecidableEq, Repr
 
-/-- lark `common.WS`: `[ \t\f\r\n]+` -/
-def isWS (c : Char) : Bool := c == ' ' || c == '\t' || c == '\x0c' || c == '\r' || c == '\n'
-def isLetter (c : Char) : Bool := ('a' ≤ c && c ≤ 'z') || ('A' ≤ c && c ≤ 'Z')
-def isDigitC (c : Char) : Bool := '0' ≤ c && c ≤ '9'
-def isNameStart (c : Char) : Bool := isLetter c || c == '_'
-def isNameChar (c : Char) : Bool := isLetter c || c == '_' || isDigitC c
 
 /-- `none` = a character no terminal matches -/
 def xlex : Nat → Str → Option (List XTok)
